@@ -20,7 +20,17 @@ IMPORTS = 'Model.Prelude Gen.Gen_Results Model.L5_Results'
 def make_probe(ss):
     class Recount(ss.Analyzer):
         def __init__(self, **kw):
-            super().__init__(**kw); self.problems = []; self.n_uid = []
+            super().__init__(**kw); self.problems = []; self.n_uid = []; self.events = {}
+        def init_pre(self, sim, **kw):
+            super().init_pre(sim, **kw)
+            # independent count of infection events: every call of a disease's set_prognoses, stamped with the DISEASE's own clock at the call
+            for dis in sim.diseases():
+                if isinstance(dis, ss.Infection) and not hasattr(dis, '_c15_wrapped'):
+                    orig = dis.set_prognoses; ev = self.events.setdefault(dis.name, {})
+                    def wrapped(uids, *a, _orig=orig, _dis=dis, _ev=ev, **k):
+                        _ev[int(_dis.ti)] = _ev.get(int(_dis.ti), 0) + len(np.unique(np.asarray(uids)))
+                        return _orig(uids, *a, **k)
+                    dis.set_prognoses = wrapped; dis._c15_wrapped = True
         def step(self):
             sim = self.sim; ppl = sim.people; au = np.asarray(ppl.auids); ti = int(sim.t.ti)
             on_sim_step = abs(float(self.t.abstvec[min(self.t.ti, self.t.npts - 1)]) - float(sim.t.abstvec[min(ti, sim.t.npts - 1)])) < 1e-9
@@ -43,6 +53,8 @@ def make_probe(ss):
                     want = int(np.count_nonzero(dis.ti_infected.raw[au] == dis.ti))
                     got = dis.results.new_infections[dis.ti]
                     if got != want: self.problems.append((ti, f'{dis.name}.new_infections', float(got), want))
+                    want = int(self.events.get(dis.name, {}).get(int(dis.ti), 0))
+                    if dis.name in self.events and got != want: self.problems.append((ti, f'{dis.name}.new_infections (infection events of this disease step)', float(got), want))
     return Recount
 
 
@@ -52,6 +64,8 @@ def configs(ss, Recount):
                                                        demographics=[ss.Births(birth_rate=40), ss.Deaths(death_rate=30)], dur=10, rand_seed=seed, verbose=0, **kw)
     cf['two-diseases-dt'] = lambda seed, **kw: ss.Sim(n_agents=120, diseases=[ss.SIS(init_prev=0.2), ss.SIR(dt=0.5, init_prev=0.1)], networks=ss.RandomNet(n_contacts=4), analyzers=Recount(name='recount'),
                                                      demographics=ss.Deaths(death_rate=25), dur=8, rand_seed=seed, verbose=0, **kw)
+    cf['sir-coarse-and-fine'] = lambda seed, **kw: ss.Sim(n_agents=150, diseases=[ss.SIR(name='coarse', dt=2.0, init_prev=0.1, beta=0.08), ss.SIR(name='fine', dt=0.5, init_prev=0.05, beta=0.1)], networks=ss.RandomNet(n_contacts=4),
+                                                          analyzers=Recount(name='recount', dt=0.5), dur=8, rand_seed=seed, verbose=0, **kw)
     cf['fine-disease-fine-births'] = lambda seed, **kw: ss.Sim(n_agents=100, diseases=ss.SIS(dt=0.25, init_prev=0.3, beta=0.2), networks=ss.RandomNet(n_contacts=4, dt=0.25), analyzers=Recount(name='recount', dt=0.25),
                                                      demographics=[ss.Births(birth_rate=400, dt=0.25), ss.Deaths(death_rate=50)], dur=5, rand_seed=seed, verbose=0, **kw)
     cf['pregnancy-hiv'] = lambda seed, **kw: ss.Sim(n_agents=200, diseases=ss.HIV(beta={'mf': [0.1, 0.05], 'prenatal': [0.3, 0]}), networks=[ss.MFNet(), ss.PrenatalNet()],
